@@ -76,7 +76,78 @@ def c09():
     return p
 
 
-REGISTRY = {"C09": c09}
+SER_SHAPES = (["prim", "opcode", "int", "bool", "null", "slot"] + ["utf8_%d" % n for n in range(5)] + ["string%d" % n for n in range(5)]
+              + ["class%d" % n for n in range(4)] + ["method%d" % n for n in range(4)] + ["program_a", "program_b", "program_c"])
+SER_QUICK = {"prim", "opcode", "int", "bool", "slot", "utf8_2", "string0", "string3", "class2", "method2", "program_a", "program_c"}
+SER_FUNCS = ["bytecode::serializable::{write_u8,write_bool,write_u16,write_u32,write_i32,write_utf8,write_u16_vector,"
+             "read_u8,read_bool,read_u16,read_u32,read_i32,read_utf8,read_u16_vector}",
+             "<OpCode as Serializable>::{serialize,from_bytes}", "OpCode::{write_opcode_vector,read_opcode_vector,to_hex}",
+             "<ProgramObject as SerializableWithContext>::{serialize,from_bytes}", "ProgramObject::tag",
+             "<ConstantPool as SerializableWithContext>::{serialize,from_bytes}", "<Globals as Serializable>", "<Entry as Serializable>",
+             "<Program as Serializable>::{serialize,from_bytes}", "Code::{materialize,append,labels,label_addresses}", "Labels::from",
+             "ConstantPoolIndex::{read_cpi_vector,write_cpi_vector}", "Arity/Size/ConstantPoolIndex/LocalFrameIndex Serializable impls"]
+SER_BOUNDS = ["primitives: every u8, bool, u16, u32, i32 value",
+              "strings: byte length 0-4, every valid UTF-8 content of that length (multi-byte characters included)",
+              "instructions: all 17 kinds (kind symbolic) x every u16 / u8 operand value",
+              "constants: integer/boolean/null/slot (kind symbolic, all payloads); string 0-4 bytes; class of 0-3 members; "
+              "method of 0-3 instructions with symbolic kinds, name, arity, locals",
+              "programs: three fixed layouts (3, 5 and 2 constants; 1, 2 and 0 globals; two methods whose code order matters; "
+              "one label/goto pair) with every content symbolic"]
+SER_OUTSIDE = ["strings longer than 4 bytes, classes of more than 3 members, methods of more than 3 instructions, pools of more than 5 constants",
+               "programs whose method address ranges are not contiguous in pool order (no compiler output has that shape)",
+               "NamedSink in main.rs (one-line delegation to the wrapped writer) and the real stdout pipe"]
+
+
+def ser_shape_timeout(shape):
+    return 1500 if shape.startswith("program") else 900
+
+
+def ser_shape_mem(shape):
+    return 24 if shape.startswith("program") else 12
+
+
+def c03():
+    p = Prop("C03")
+    for sh in SER_SHAPES:
+        p.add("h_ser::ser_%s_roundtrip" % sh, quick=sh in SER_QUICK, timeout=ser_shape_timeout(sh), mem_gb=ser_shape_mem(sh), weight=(3 if sh.startswith("program") else 1),
+              drives=["serialize", "from_bytes"], bound="shape %s: sizes concrete, every content symbolic" % sh)
+    p.functions, p.bounds, p.outside = SER_FUNCS, SER_BOUNDS, SER_OUTSIDE
+    return p
+
+
+def c04():
+    p = Prop("C04")
+    for sh in SER_SHAPES:
+        p.add("h_ser::ser_%s_layout" % sh, quick=sh in SER_QUICK, timeout=ser_shape_timeout(sh), mem_gb=ser_shape_mem(sh), weight=(3 if sh.startswith("program") else 1),
+              drives=["serialize"], bound="shape %s: real writer = reference encoder, byte for byte" % sh)
+    dec = ["prim", "opcode", "int", "bool", "null", "slot"] + ["string%d" % n for n in range(5)] + \
+          ["class%d" % n for n in range(4)] + ["method%d" % n for n in range(4)]
+    for sh in dec:
+        p.add("h_ser::ser_%s_decode" % sh, quick=sh in ("prim", "opcode", "int", "bool", "string2", "class2", "method2"), timeout=900,
+              drives=["from_bytes"], bound="shape %s: every buffer of the documented layout (structure concrete, payload symbolic)" % sh)
+    p.add("h_ser::ser_opcode_reject", quick=True, timeout=600, allow=["Cannot deserialize opcode: unknown tag"],
+          bound="opcode numbers 0x11-0xff: rejected (the reader's rejection is a panic)")
+    p.add("h_ser::ser_program_mirror_agrees", quick=True, timeout=600, bound="oracle self-check: literal program layouts = mirror layouts")
+    p.add("h_ser::ser_utf8_predicate_exact", quick=False, timeout=900, bound="harness-side UTF-8 predicate = std::str::from_utf8 on all inputs of 0-4 bytes")
+    p.add("h_ser::ser_constant_reject", quick=True, timeout=600,
+          allow=["Cannot deserialize value: unrecognized value tag", "Problem reading boolfrom data stream"],
+          bound="constant tags 0x07-0xff and boolean bytes 2-255: rejected")
+    p.functions, p.bounds, p.outside = SER_FUNCS, SER_BOUNDS, SER_OUTSIDE
+    return p
+
+
+def c08():
+    p = Prop("C08")
+    for sh in SER_SHAPES:
+        p.add("h_ser::ser_%s_shortwrite" % sh, quick=sh in SER_QUICK, timeout=ser_shape_timeout(sh), mem_gb=ser_shape_mem(sh), weight=(3 if sh.startswith("program") else 1),
+              drives=["serialize"], bound="shape %s under every short-write schedule: each write call accepts a solver-chosen k, 1 <= k <= len" % sh)
+    p.functions, p.outside = SER_FUNCS, SER_OUTSIDE
+    p.bounds = SER_BOUNDS + ["sink: std::io::Write impl that accepts an independently solver-chosen non-empty prefix at every call and "
+                             "never errors; this subsumes every per-call limit k and a short write at each individual call"]
+    return p
+
+
+REGISTRY = {"C03": c03, "C04": c04, "C08": c08, "C09": c09}
 
 
 def get(pid):
